@@ -107,7 +107,7 @@ def chan_seq(rep, flavours, programs, ops, caps, profiles, seed_off=0, label="ch
     return r
 
 
-def chan_sched(rep, flavours, runs, caps, shapes=("drain", "leave"), strategies=("random", "pct"), seed_off=0,
+def chan_sched(rep, flavours, runs, caps, shapes=("drain", "leave", "prefill"), strategies=("random", "pct"), seed_off=0,
                label="chan-sched"):
     """Multi-thread scenarios under the cooperative scheduler (yield point at every instrumented atomic / lock)."""
     wd = C.workdir()
@@ -171,7 +171,7 @@ def C02(rep):
 def C03(rep):
     chan_mc(rep, rep.tier)
     chan_seq(rep, BOUNDED, n(rep.tier, 24, 400), 70, [1, 2, 3, 4], ["mix", "batch"], seed_off=202, label="chan-seq-bounded")
-    chan_sched(rep, BOUNDED, n(rep.tier, 40, 1500), [1, 2], shapes=("drain",), seed_off=22)
+    chan_sched(rep, BOUNDED, n(rep.tier, 60, 2000), [1, 2, 3], shapes=("prefill", "drain"), seed_off=22)
     rep.assumptions += CHAN_ASSUME
 
 
